@@ -31,7 +31,8 @@ def parse(patch_text):
         if line.startswith("@@"):
             if cur is None:
                 continue
-            hunk = ([], [])
+            m = re.match(r"@@ -(\d+)(?:,\d+)? \+(\d+)", line)
+            hunk = ([], [], int(m.group(1)) if m else 0, int(m.group(2)) if m else 0)
             cur.append(hunk)
             continue
         if hunk is None or cur is None:
@@ -55,9 +56,12 @@ def _trim(old, new):
 
 def apply_hunks(text, hunks, reverse=False):
     lines = text.split("\n")
-    for old, new in hunks:
+    for h in hunks:
+        old, new = h[0], h[1]
+        hint = (h[2] if len(h) > 2 else 0)
         if reverse:
             old, new = new, old
+            hint = (h[3] if len(h) > 3 else 0)
         # try with decreasing amounts of surrounding context
         done = False
         lo, hi = 0, 0
@@ -73,6 +77,10 @@ def apply_hunks(text, hunks, reverse=False):
                 done = True
                 break
             if len(hits) > 1:
+                # several identical blocks: take the one nearest to where the hunk header says it is
+                i = min(hits, key=lambda x: abs((x + 1) - (hint + lo)))
+                lines[i:i + len(o)] = n
+                done = True
                 break
             # no hit: shrink the context from whichever end still has common lines
             if lo < len(old) and lo < len(new) and old[lo] == new[lo] and (hi >= len(old) - lo - 1 or lo <= hi):
